@@ -99,6 +99,9 @@ fn stream_decoder_case(out: &mut Out, r: &mut Rng, codec: &'static str, input: V
         _ => {}
     }
     out.nontrivial(&(codec, &input));
+    if out.want_sample() && input.len() > 8 && input.len() < 120 {
+        out.sample(serde_json::json!({"decoder": codec, "input_hex": hex(&input)}));
+    }
 }
 
 fn rpfm_attr_cases() -> Vec<Vec<u8>> {
@@ -146,6 +149,9 @@ async fn h11c_connect_case(out: &mut Out, r: &mut Rng) {
     let feature = *r.pick(&[Feature::TcpForward, Feature::UdpForward, Feature::UdpBind]);
     out.case();
     out.nontrivial(&("h11c_connect", &bytes, feature as u8));
+    if out.want_sample() {
+        out.sample(serde_json::json!({"entry": "h11c_connect", "upstream_reply": String::from_utf8_lossy(&bytes).chars().take(120).collect::<String>()}));
+    }
     let contexts = Arc::new(crate::context::GlobalState::default());
     let ctx = contexts.create_context("l".into(), "127.0.0.1:9".parse().unwrap()).await;
     {
